@@ -478,6 +478,8 @@ class Unit:
     def rewrite_body(self, body, c: Contract, f: Fn):
         from rules import apply_body_rules
         body = apply_body_rules(body, self, c, f)
+        if c.closures:
+            body = annotate_closures(body, c.closures, f)
         if c.pre:
             i = body.index('{')
             body = body[:i + 1] + '\n proof { ' + c.pre + ' }\n' + body[i + 1:]
@@ -537,3 +539,26 @@ def insert_before_tail(body, text):
             last = i + 1
         i += 1
     return body[:last] + '\n' + text + body[last:]
+
+
+CLOSURE_RE = re.compile(r'\|([^|()]*)\|(\s*)\{')
+
+
+def annotate_closures(body, closures, f):
+    """rule R10: inject parameter types and a requires/ensures into the k-th closure of the body"""
+    ms = list(CLOSURE_RE.finditer(body))
+    out = body
+    for k in sorted(closures, reverse=True):
+        if k >= len(ms):
+            raise ExtractError('closure #%d not found in %s (lost anchor)' % (k, f.name))
+        m = ms[k]
+        a = closures[k]
+        spec = ''
+        if a.get('requires'):
+            spec += ' requires ' + ', '.join(a['requires'])
+        if a.get('ensures'):
+            spec += ' ensures ' + ', '.join(a['ensures'])
+        head = '|%s| -> (%s)%s' % (a['params'], a['ret'], spec)
+        pre = (' proof { ' + a['pre'] + ' } ') if a.get('pre') else ''
+        out = out[:m.start()] + head + m.group(2) + '{' + pre + out[m.end():]
+    return out
